@@ -423,6 +423,37 @@ impl Sys {
             Err(p) => Err(format!("panic: {p}")),
         }
     }
+    /// rewrites the pool manager's storage the way a v1.2.0 deployment looked (pool records without a status, stored
+    /// version 1.2.0), so that the real `migrate` entry point performs its v1.3.0 step
+    pub fn downgrade_pool_manager_storage(&mut self) -> Result<usize, String> {
+        use cosmwasm_std::Order;
+        use cw_storage_plus::Map;
+        #[derive(serde::Serialize, serde::Deserialize)]
+        struct OldPoolInfo {
+            pool_identifier: String,
+            asset_denoms: Vec<String>,
+            lp_denom: String,
+            asset_decimals: Vec<u8>,
+            assets: Vec<Coin>,
+            pool_type: pm::PoolType,
+            pool_fees: mantra_dex_std::fee::PoolFee,
+        }
+        let addr = self.pool.clone();
+        let mut st = self.app.contract_storage_mut(&addr);
+        let all: Vec<(String, pm::PoolInfo)> = pool_manager::state::POOLS
+            .range(&*st, None, None, Order::Ascending)
+            .collect::<Result<Vec<_>, _>>()
+            .map_err(|e| e.to_string())?;
+        let old: Map<&str, OldPoolInfo> = Map::new("pools");
+        for (k, p) in all.iter() {
+            old.save(&mut *st, k, &OldPoolInfo { pool_identifier: p.pool_identifier.clone(), asset_denoms: p.asset_denoms.clone(), lp_denom: p.lp_denom.clone(),
+                asset_decimals: p.asset_decimals.clone(), assets: p.assets.clone(), pool_type: p.pool_type.clone(), pool_fees: p.pool_fees.clone() })
+                .map_err(|e| e.to_string())?;
+        }
+        let name = cw2::get_contract_version(&*st).map_err(|e| e.to_string())?.contract;
+        cw2::set_contract_version(&mut *st, name, "1.2.0").map_err(|e| e.to_string())?;
+        Ok(all.len())
+    }
     /// a second farm manager with the given configuration (instantiate validation, DESIGN 9.9)
     #[allow(clippy::too_many_arguments)]
     pub fn try_instantiate_farm(&mut self, max_farms: u32, min_unlock: u64, max_unlock: u64, expiration: u64, penalty: Decimal) -> Result<Addr, String> {
